@@ -471,6 +471,10 @@ class Analyzer:
                     st["vals"][t["dest"]["l"]] = a0v                           # the same propagated error, one level up
                 else:
                     st["vals"][t["dest"]["l"]] = ("residual", bb, a0v)
+            elif not t["dest"].get("proj") and dcl.endswith("CheckRestrictions::check_restrictions"):
+                # the result of a delegated check: followed through the copies that hand it to the return place
+                st = self._fork(st)
+                st["vals"][t["dest"]["l"]] = ("calldef", bb)
             elif not t["dest"].get("proj") and t["dest"]["l"] not in st["vals"] and len(self.B.defs().get(t["dest"]["l"], [])) > 1:
                 # a local with several definitions: on this path it holds the result of this call
                 st = self._fork(st)
@@ -874,6 +878,12 @@ class Analyzer:
             if rv["k"] == "aggregate" and rv.get("adt", "").endswith("result::Result"):
                 return ("Ok", bb) if rv["variant"] == "Ok" else ("Err", bb)
             tracked = ret_assign[3] if len(ret_assign) > 3 else None
+            if isinstance(tracked, tuple) and tracked[0] == "calldef":
+                ct = self.B.term(tracked[1])
+                cdecl = M.Body.callee_decl(ct) or ""
+                if cdecl.endswith("CheckRestrictions::check_restrictions"):
+                    # `_0 = <the delegated check's result>` through moves (a closure's return handed on by a combinator)
+                    return ("Delegate", tracked[1], M.Body.callee(ct), [self.role_of_operand(a) for a in ct["args"]], cdecl)
             if isinstance(tracked, tuple) and tracked[0] == "result":
                 return ("Ok", tracked[2]) if tracked[1] == "Ok" else ("Err", tracked[2])
             if isinstance(tracked, tuple) and tracked[0] == "residual":
